@@ -283,6 +283,10 @@ func (r *runner) exec(v *Vector, ci int, c *Case) {
 		r.sum.Skipped["nohook:"+c.Entry]++
 		return
 	}
+	if c.NeedAge && !dnsAgePresent {
+		r.sum.Skipped["noagehook:"+c.Entry]++
+		return
+	}
 	fmt.Fprintf(r.cur, "%-10d%-10d", v.ID, ci)
 	r.cur.Seek(0, 0)
 	r.curRes.Store(res)
@@ -456,7 +460,7 @@ func runOne() {
 	c := cases[in.C]
 	v := &in.Vector
 	res := &Result{V: v.ID, C: in.C, W: v.W, Cls: v.Cls, Entry: c.Entry, Group: c.Group, Mut: c.Mut, Pred: v.Mech[c.Group]}
-	if c.NeedHook && !dnsHookPresent {
+	if (c.NeedHook && !dnsHookPresent) || (c.NeedAge && !dnsAgePresent) {
 		res.Outcome = "skipped"
 		j, _ := json.Marshal(res)
 		fmt.Fprintln(real, string(j))
